@@ -439,7 +439,9 @@ let apply (toks : string list) (buf : Buffer.t) =
              ret := "ok";
              evs := "ev " ^ String.concat " " (List.sort compare (de_events w'))
      end
-   | "fault" -> armed := Some (arr.(1), u 2)
+   | "fault" ->
+     (* `fault kind k res`: only the callbacks of resources count — outside the cell-level model *)
+     armed := Some ((if Array.length arr > 3 then arr.(1) ^ "-res" else arr.(1)), u 2)
    | "dbg" -> ()
    | "xrg" ->
      (* a ragged batch is refused by Batch::new (a panic): nothing reaches the world *)
